@@ -654,7 +654,10 @@ func (c *Conn) heartBeat(ctx context.Context) {
 		case error:
 			// TODO: should we do something here?
 		default:
-			panic(fmt.Sprintf("gocql: unknown frame in response to options: %T", resp))
+			// a frame that is neither SUPPORTED nor ERROR is a protocol violation by the peer:
+			// close the connection instead of crashing the process
+			c.closeWithError(fmt.Errorf("gocql: unknown frame in response to options: %T", resp))
+			return
 		}
 	}
 }
